@@ -148,3 +148,99 @@ class AGen(progs.Gen):
                 items.append([gap, e, r.choice(alpha), r.choice(n_md)])
             out.append(items)
         return out
+
+
+def svc_profile(r):
+    style = r.choice(['zero', 'const', 'mixed', 'mixed', 'decreasing'])
+    if style == 'zero':
+        return [0]
+    if style == 'const':
+        return [r.choice(SVC_GRID[2:])]
+    if style == 'decreasing':
+        return [2.0, 1.0, 0.5, 0.25, 0]
+    return [r.choice(SVC_GRID) for _ in range(r.randrange(2, 5))]
+
+
+class XAGen(progs.XGen):
+    """Asynchronous programs over "exotic" elements (None, falsy values, strings, nested tuples): the exotic-safe
+    synchronous nodes of progs.XGen plus the time-based / buffering nodes, whose functions (keys) are total on every value."""
+    ASYNC = ['buffer', 'delay', 'rate_limit', 'latest', 'timed_window', 'timed_window_unique', 'timed_window_unique',
+             'partition_timeout']
+
+    def __init__(self, rng, async_ops=None, max_nodes=6, sink_kinds=('sync', 'coro', 'future', 'tornado')):
+        super().__init__(rng, max_nodes=max_nodes)
+        self.async_ops = async_ops or self.ASYNC
+        self.async_ops = [o for o in self.async_ops if o in self.ASYNC] or self.ASYNC
+        self.sink_kinds = sink_kinds
+        self.batchy = set()
+
+    def _pick(self, kind=None):
+        c = [n['id'] for n in self.nodes if n['op'] != 'sink' and n['id'] not in self.batchy
+             and (kind is None or self.kind[n['id']] == kind)]
+        if not c:
+            return None
+        r = self.r
+        return c[-1 - min(len(c) - 1, int(r.expovariate(1.5)))] if r.random() < 0.7 else r.choice(c)
+
+    def _multi_cands(self):
+        return [n['id'] for n in self.nodes if n['op'] != 'sink' and n['id'] not in self.batchy]
+
+    def _add_async(self, op):
+        r, K = self.r, self.kind
+        u = self._pick()
+        if op == 'buffer':
+            return self._new('buffer', [u], K[u], n=r.choice([1, 1, 2, 3, 5]))
+        if op in ('delay', 'rate_limit'):
+            return self._new(op, [u], K[u], interval=r.choice([0.25] + INT_GRID), ival_str=r.random() < 0.25)
+        if op == 'latest':
+            return self._new('latest', [u], K[u])
+        if op == 'partition_timeout':
+            return self._new('partition', [u], 'xt', n=r.choice([1, 2, 3, 4]), timeout=r.choice(INT_GRID),
+                             key=r.choice([None, None, 'x_type', 'x_isnone']))
+        params = {'interval': r.choice(INT_GRID), 'ival_str': r.random() < 0.25}
+        if op == 'timed_window_unique':
+            params['key'] = r.choice(['ident', 'x_type', 'x_repr', 'x_isnone'])
+            params['keep'] = r.choice(['first', 'last', 'last'])
+        w = self._new(op, [u], 'xt', **params)
+        self.batchy.add(w)
+        if r.random() < 0.8:
+            return self._new('flatten', [w], 'x')
+        return w
+
+    def program(self, n_entries=None, min_async=1):
+        r = self.r
+        self.nodes, self.kind, self.batchy = [], {}, set()
+        n_entries = n_entries or r.choice([1, 1, 1, 2])
+        for _ in range(n_entries):
+            self._new('source', [], 'x')
+        target = r.randrange(1, self.max_nodes + 1)
+        n_async = tries = 0
+        while (len(self.nodes) < n_entries + target or n_async < min_async) and tries < 60:
+            tries += 1
+            if r.random() < 0.5 or (n_async < min_async and tries > 3):
+                if self._add_async(r.choice(self.async_ops)) is not None:
+                    n_async += 1
+            else:
+                self._add(r.choice(self.OPS))
+        has_child = set(u for n in self.nodes for u in n['ups'])
+        for n in list(self.nodes):
+            if n['op'] != 'sink' and (n['id'] not in has_child or r.random() < 0.1):
+                self._new('sink', [n['id']], None, kind=r.choice(self.sink_kinds), svc=svc_profile(r))
+        return {'nodes': self.nodes, 'extra_edges': []}
+
+    def producers(self, prog, max_total=16):
+        r = self.r
+        entries = [n['id'] for n in prog['nodes'] if n['op'] == 'source']
+        pool = r.choice([progs.EXOTIC, progs.EXOTIC, [None, 0, 1], [None, None, 'a', 0]])
+        np_ = r.choice([1, 1, 2, 3])
+        total = r.randrange(2, max_total + 1)
+        out = []
+        for p in range(np_):
+            style = r.choice(['burst', 'steady', 'mixed', 'mixed'])
+            steady = r.choice(GAP_GRID[2:])
+            items = []
+            for _ in range(max(1, total // np_)):
+                gap = (0 if r.random() < 0.85 else r.choice(GAP_GRID)) if style == 'burst' else steady if style == 'steady' else r.choice(GAP_GRID)
+                items.append([gap, r.choice(entries), r.choice(pool), 1])
+            out.append(items)
+        return out
